@@ -346,10 +346,8 @@ func (g *gen) fwdCase() *Case {
 		for k := 0; k < n; k++ {
 			var e string
 			switch s.Kind {
-			case "conv", "copy1":
+			case "conv", "copy1", "copy": // (every copy of a panicking source delivers the panic as an error item: F-C13d)
 				e = []string{"val", "item", "skip", "boom"}[g.weighted(58, 14, 10, 18)]
-			case "copy":
-				e = []string{"val", "item", "skip"}[g.weighted(70, 18, 12)]
 			case "pipe":
 				e = []string{"val", "item"}[g.weighted(80, 20)]
 			default:
